@@ -356,6 +356,10 @@ def mutants(prog, rnd, per_op):
     # M7 non-constant global
     emit(lambda q: q["globals"].append({"x": "ncg", "e": Call("main")}), "nonconst-global")
     emit(lambda q: q["globals"].append({"x": "ncg", "e": Bin("+", I(1), V("ncg0"))}) or q["globals"].insert(0, {"x": "ncg0", "e": I(1)}), "nonconst-global")
+    emit(lambda q: q["globals"].append({"x": "ncg", "e": Range(Block([Let("q", I(1))], V("q")), I(5))}), "nonconst-global")
+    emit(lambda q: q["globals"].append({"x": "ncg", "e": Idx(List(I(1), I(2)), Block([Let("q", I(0))], V("q")))}), "nonconst-global")
+    emit(lambda q: q["globals"].append({"x": "ncg", "e": Range(Block([], I(1)), I(5))}), "const-global")
+    emit(lambda q: q["globals"].append({"x": "ncg", "e": List(Range(I(0), Call("main")))}), "nonconst-global")
     # M8 implicit any
     for name in fnames[:2]:
         emit(lambda q, name=name: q["fns"][name]["body"]["ss"].insert(0, Let("ia", List())), "implicit-any")
